@@ -148,7 +148,7 @@ def eliminate_guards(hb):
             if st[c + 1:].strip():
                 continue                      # has an else branch
             inner = st[o + 1:c].strip()
-            mm = re.fullmatch(r'return\s+(.*?);?', inner, re.S)
+            mm = re.fullmatch(r'return\b\s*(.*?);?', inner, re.S)
             if mm and not re.search(r'\breturn\b', mm.group(1)):
                 hit = (a, b, st[:o].rstrip(), mm.group(1).strip())
                 break
@@ -160,7 +160,7 @@ def eliminate_guards(hb):
             if len(ist) < 2:
                 continue
             (la, lb, _lsemi) = ist[-1]
-            mm = re.fullmatch(r'return\s+(.*?);?', inner[la:lb].strip() , re.S)
+            mm = re.fullmatch(r'return\b\s*(.*?);?', inner[la:lb].strip() , re.S)
             prefix = inner[:la]
             if not mm or re.search(r'\breturn\b', mm.group(1)) or re.search(r'\breturn\b', prefix) or inner[lb:].strip().strip(';').strip():
                 continue
